@@ -30,6 +30,9 @@ import z3
 from vc import ringnf
 from vc.core import Obligation, _num_parts, to_z3_real, zbool
 
+import os
+
+_DEBUG = bool(os.environ.get("C35_DEBUG"))
 STEP_TIMEOUT_MS = 10000
 GUARD_TIMEOUT_MS = 3000
 
@@ -44,7 +47,10 @@ def _check(c, hyps, extra, timeout_ms):
             c.solver.add(h)
         for e in extra:
             c.solver.add(e)
+        _t0 = time.time()
         r = c.solver.check()
+        if _DEBUG:
+            print(f"[C35_rational] check {r} {time.time() - _t0:.2f}s (limit {timeout_ms} ms): {str(extra[-1])[:160]!r}", flush=True)
         m = c.solver.model() if r == z3.sat else None
     finally:
         c.solver.pop()
@@ -98,12 +104,21 @@ def _is_zero_numeral(b):
 class Rational:
     """shared state of one proof: converter (atoms), proven non-zero facts, decided guards"""
 
-    def __init__(self, c, hyps=(), relations=()):
+    def __init__(self, c, hyps=(), relations=(), nonzero_terms=()):
         self.c = c
         self.hyps = [zbool(h) for h in hyps]
-        self.relations = list(relations)
+        self._known_terms = [to_z3_real(_num_parts(t)[0]) for t in nonzero_terms]
+        self.hyps += [t != 0 for t in self._known_terms]
+        self._known_polys = None
+        self.relations = []
+        for s_term, x_term in relations:
+            self.relations.append((s_term, x_term))
+            s2 = z3.simplify(s_term)
+            if s2.get_id() != s_term.get_id():
+                self.relations.append((s2, x_term))
         self.cv = ringnf.Converter()
         self.nz = {}  # term id -> bool (shown non-zero)
+        self.nz_tried = set()
         self.facts = []  # z3 facts proven on the way (t != 0), reused as hypotheses
         self.guards = {}
         self.ite_cache = {}
@@ -142,44 +157,130 @@ class Rational:
         r, _ = _check(self.c, self.hyps + self.facts, [t == 0], timeout)
         return r == z3.unsat
 
-    def nonzero(self, term, timeout=STEP_TIMEOUT_MS):
+    def nonzero(self, term, timeout=STEP_TIMEOUT_MS, cheap=False):
+        """term != 0 under the hypotheses?  cheap=True: only the syntactic / monomial argument"""
         k = term.get_id()
-        if k in self.nz:
-            return self.nz[k]
-        self.nz[k] = False  # guards against cycles
-        ok = self._nonzero(term, timeout)
-        self.nz[k] = ok
+        if self.nz.get(k):
+            return True
+        if (k, cheap) in self.nz_tried:
+            return False
+        self.nz_tried.add((k, cheap))
+        ok = self._nonzero(term, timeout, cheap)
         if ok:
+            self.nz[k] = True
             self.facts.append(term != 0)
         return ok
 
-    def _nonzero(self, term, timeout):
+    def known_nonzero(self, poly):
+        """is `poly` a non-zero scalar multiple of a polynomial the caller declared non-zero, or of one
+        syntactically assumed non-zero in the context (x != 0, x > 0, x < 0)?"""
+        if self._known_polys is None:
+            self._known_polys = []
+            cands = list(self._known_terms)
+            for f in list(self.c.assumptions) + list(self.c.pathcond) + self.hyps:
+                g, neg = f, False
+                while z3.is_not(g):
+                    g, neg = g.children()[0], not neg
+                if z3.is_app(g) and g.num_args() == 2 and z3.is_arith(g.children()[0]):
+                    a, b = g.children()
+                    k = g.decl().kind()
+                    if (k == z3.Z3_OP_EQ and neg) or (k in (z3.Z3_OP_GT, z3.Z3_OP_LT) and not neg) or (k in (z3.Z3_OP_GE, z3.Z3_OP_LE) and neg):
+                        if _is_zero_numeral(b):
+                            cands.append(to_z3_real(a))
+                        elif _is_zero_numeral(a):
+                            cands.append(to_z3_real(b))
+            for t in cands:
+                try:
+                    n, d = self.cv.conv(t)
+                    if d.is_const() and not n.is_zero():
+                        self._known_polys.append(self.reduce(n))
+                except ringnf.TooBig:
+                    pass
+        for kp in self._known_polys:
+            if len(kp.t) != len(poly.t) or set(kp.t) != set(poly.t):
+                continue
+            m0 = next(iter(kp.t))
+            ratio = poly.t[m0] / kp.t[m0]
+            if ratio != 0 and all(poly.t[m] == ratio * cc for m, cc in kp.t.items()):
+                return True
+        return False
+
+    def _atom_nonzero(self, atom, timeout):
+        if ("atom", atom) not in self.nz and self.known_nonzero(ringnf.Poly.atom(atom)):
+            self.nz[("atom", atom)] = True
+        ka = ("atom", atom)
+        if ka not in self.nz:
+            a = self.cv.atom_terms[atom]
+            a = z3.ToReal(a) if z3.is_int(a) else a
+            self.nz[ka] = self._z3_nonzero(a, timeout)
+            if self.nz[ka]:
+                self.facts.append(a != 0)
+        return self.nz[ka]
+
+    def _nonzero(self, term, timeout, cheap):
         try:
             n, _ = self.numerator(term)
         except ringnf.TooBig:
-            return self._z3_nonzero(term, timeout)
+            return False if cheap else self._z3_nonzero(term, timeout)
         if n.is_zero():
             return False
         # term = n/m with m a product of divisors occurring inside term: all of them must be fine
         for d in self.inner_divisors(term):
-            if d.get_id() != term.get_id() and not self.nonzero(d, timeout):
+            if d.get_id() != term.get_id() and not self.nonzero(d, timeout, cheap):
                 return False
         mono, rest = _content(n)
         for atom in mono:
-            a = self.cv.atom_terms[atom]
-            a = z3.ToReal(a) if z3.is_int(a) else a
-            ka = ("atom", atom)
-            if ka not in self.nz:
-                self.nz[ka] = self._z3_nonzero(a, timeout)
-                if self.nz[ka]:
-                    self.facts.append(a != 0)
-            if not self.nz[ka]:
-                return self._z3_nonzero(term, timeout)
+            if not self._atom_nonzero(atom, min(timeout, GUARD_TIMEOUT_MS)):
+                return False
         if rest.is_const():
             return rest.const_value() != 0
-        if self._z3_nonzero(_poly_to_z3(rest, self.cv), timeout):
+        if self.known_nonzero(rest):
             return True
-        return self._z3_nonzero(term, timeout)
+        if cheap:
+            return False
+        # exact factorisation (computed by sympy, re-multiplied and compared here): every factor != 0
+        for f in self.factors(rest):
+            if f.is_const():
+                if f.const_value() == 0:
+                    return False
+                continue
+            if self.known_nonzero(f):
+                continue
+            m2, r2 = _content(f)
+            if r2.is_const() and all(self._atom_nonzero(a, min(timeout, GUARD_TIMEOUT_MS)) for a in m2):
+                continue
+            if not self._z3_nonzero(_poly_to_z3(f, self.cv), timeout):
+                return False
+        return True
+
+    def factors(self, poly):
+        """-> list of Poly whose product is `poly` (checked with exact arithmetic); [poly] on any doubt"""
+        try:
+            import sympy
+
+            atoms = sorted({a for mono in poly.t for a, _ in mono})
+            if len(poly.t) > 400 or not atoms:
+                return [poly]
+            syms = {a: sympy.Symbol(f"a{a}") for a in atoms}
+            expr = sympy.Add(*[sympy.Rational(c.numerator, c.denominator) * sympy.Mul(*[syms[a] ** e for a, e in mono]) for mono, c in poly.t.items()])
+            coeff, facs = sympy.factor_list(expr)
+            out = [ringnf.Poly.const(Fraction(int(sympy.numer(coeff)), int(sympy.denom(coeff))))]
+            order = [syms[a] for a in atoms]
+            for f, mult in facs:
+                fp = sympy.Poly(f, *order)
+                t = {}
+                for exps, c in fp.terms():
+                    mono = tuple((a, e) for a, e in zip(atoms, exps) if e)
+                    t[mono] = Fraction(int(sympy.numer(c)), int(sympy.denom(c)))
+                out.extend([ringnf.Poly(t)] * int(mult))
+            prod = ringnf.Poly.const(1)
+            for f in out:
+                prod = prod * f
+            if not (prod - poly).is_zero():
+                return [poly]
+            return out
+        except Exception:  # noqa: BLE001
+            return [poly]
 
     def inner_divisors(self, term):
         out, seen = [], set()
@@ -227,31 +328,43 @@ class Rational:
         if z3.is_not(g):
             r = self.guard(g.children()[0])
             return None if r is None else (not r)
-        if z3.is_or(g):
-            rs = [self.guard(x) for x in g.children()]
-            if any(r is True for r in rs):
-                return True
-            if all(r is False for r in rs):
-                return False
-        elif z3.is_and(g):
-            rs = [self.guard(x) for x in g.children()]
-            if any(r is False for r in rs):
-                return False
-            if all(r is True for r in rs):
-                return True
-        elif z3.is_eq(g) and z3.is_arith(g.children()[0]):
-            a, b = g.children()
-            t = a if _is_zero_numeral(b) else a - b
-            t = to_z3_real(t)
-            if self.is_zero(t):
-                return True
-            if self.nonzero(t, GUARD_TIMEOUT_MS):
-                return False
-            return None
+        if z3.is_or(g) or z3.is_and(g):
+            absorbing = z3.is_or(g)  # Or: one True decides; And: one False decides
+            for cheap in (True, False):
+                rs = []
+                for x in g.children():
+                    r = self._guard_atom(x, cheap)
+                    if r is absorbing:
+                        return absorbing
+                    rs.append(r)
+                if all(r is (not absorbing) for r in rs):
+                    return not absorbing
+        else:
+            r = self._guard_atom(g, False)
+            if r is not None:
+                return r
         if _check(self.c, self.hyps + self.facts, [z3.Not(g)], GUARD_TIMEOUT_MS)[0] == z3.unsat:
             return True
         if _check(self.c, self.hyps + self.facts, [g], GUARD_TIMEOUT_MS)[0] == z3.unsat:
             return False
+        return None
+
+    def _guard_atom(self, g, cheap):
+        """decide (t == 0) / Not(t == 0) through the normal form of t; None if not of that shape / undecided"""
+        neg = False
+        while z3.is_not(g):
+            g, neg = g.children()[0], not neg
+        if not (z3.is_eq(g) and z3.is_arith(g.children()[0])):
+            if cheap or not (z3.is_or(g) or z3.is_and(g)):
+                return None
+            r = self.guard(g)
+            return None if r is None else (r != neg)
+        a, b = g.children()
+        t = to_z3_real(a if _is_zero_numeral(b) else (b if _is_zero_numeral(a) else a - b))
+        if self.is_zero(t):
+            return not neg
+        if self.nonzero(t, GUARD_TIMEOUT_MS, cheap):
+            return neg
         return None
 
     def resolve_ites(self, term):
@@ -272,8 +385,10 @@ class Rational:
                 else:
                     r = z3.If(g, go(a), go(b))
             elif z3.is_app(e) and e.num_args() > 0:
-                ch = [go(x) for x in e.children()]
-                r = e.decl()(*ch)
+                old = e.children()
+                ch = [go(x) for x in old]
+                # rebuild only what contained a resolved selection (keeps term identities stable)
+                r = e if all(a.get_id() == b.get_id() for a, b in zip(ch, old)) else e.decl()(*ch)
             else:
                 r = e
             cache[k] = r
@@ -333,10 +448,11 @@ def _parts(v):
     return re, im
 
 
-def prove_rational_equal(c, name, got, want, hyps=(), relations=(), seed=0):
-    """-> bool.  Records one obligation `name` in the session."""
+def prove_rational_equal(c, name, got, want, hyps=(), relations=(), seed=0, nonzero_terms=()):
+    """-> bool.  Records one obligation `name` in the session.  nonzero_terms: values assumed != 0
+    (hypotheses of the obligation, given as terms so that they can be matched as polynomial factors)."""
     t0 = time.time()
-    R = Rational(c, hyps, relations)
+    R = Rational(c, hyps, relations, nonzero_terms)
     path = "".join("T" if d else "F" for d in c.decisions)
     tag = "abstracted" if c.abstracted else "complete"
 
@@ -365,6 +481,23 @@ def prove_rational_equal(c, name, got, want, hyps=(), relations=(), seed=0):
             if not R.nonzero(d):
                 return done("unknown", "ring-normal-form", detail=f"divisor not shown non-zero: {str(d)[:200]}")
         return done("discharged", "ring-normal-form+z3(divisors!=0)")
+    if _DEBUG:
+        def _ites(e, acc, seen):
+            if e.get_id() in seen:
+                return
+            seen.add(e.get_id())
+            if z3.is_app(e) and e.decl().kind() == z3.Z3_OP_ITE:
+                acc.append(e.children()[0])
+            for ch in e.children():
+                _ites(ch, acc, seen)
+        acc = []
+        for t in (g_re, g_im, w_re, w_im):
+            _ites(t, acc, set())
+        for a_, b_ in ((g_re, w_re), (g_im, w_im)):
+            n1, d1 = R.cv.conv(a_); n2, d2 = R.cv.conv(b_)
+            dd = R.reduce(n1 * d2 - n2 * d1)
+            print("[C35_rational] diff numerator terms:", len(dd.t), str(_poly_to_z3(dd, R.cv))[:600] if len(dd.t) < 30 else "", "\n got:", str(a_)[:1500], "\n want:", str(b_)[:600], flush=True)
+        print(f"[C35_rational] {name}: normal forms differ; undecided guards: {[str(a)[:300] for a in acc[:4]]}", flush=True)
     m = find_counterexample(c, goal, R.hyps, seed=seed)
     if m is not None:
         return done("refuted", "ground-evaluation(z3)", model=m)
